@@ -7,10 +7,8 @@ Open Scope N_scope.
 
 Lemma spell_attr_src kv : quoted_attr kv = true -> spell_attr kv = fst kv ++ val_src (snd kv).
 Proof.
-  destruct kv as [k [x|]]; unfold quoted_attr, spell_attr, val_src; cbn [fst snd]; intros H.
-  - apply andb_prop in H as [_ H]. unfold dq_.
-    pose proof (no_char_memN 34 x H) as M.
-    rewrite M. reflexivity.
+  destruct kv as [k [x|]]; unfold quoted_attr, spell_attr, val_src, quote_of; cbn [fst snd]; intros H.
+  - unfold dq_, sq_. destruct (memN 34 x); reflexivity.
   - now rewrite app_nil_r.
 Qed.
 Lemma join_spell_asrc a : quoted_attrs a = true -> join_with_sp (map spell_attr a) = asrc a.
